@@ -22,7 +22,7 @@ CHECKS = {
     "C02": (
         "Hypothesis round trips (integer level with pre-loaded/foreign-construction histories, file level with constructed token lines, CLI in two processes); oracle: inverse relation and a canonicalising expectation built from the generator's own token table",
         "Round-trip oracle on distinct forward/undo instances (cold, pre-loaded by generated request histories, or separate interpreter processes through the real command line), both directions, plus file-level expectation computed by the harness from the tokens it generated (masks/preserved as written, mask-shaped images stay).",
-        "Exploration over generated inputs. IPv6 tokens with IPv4 tail excluded while known finding C06/v6-with-v4-tail is open.",
+        "Exploration over generated inputs; the forward and undo passes always get identical salt and options.",
         "4/C02",
     ),
     "C03": (
